@@ -492,7 +492,7 @@ class TransactionContext:
             raise ExpressionError("strip_suffix() requires 2 arguments: strip_suffix(text, suffix)")
         text, suffix = str(args[0]), str(args[1])
         if text.upper().endswith(suffix.upper()):
-            return text[:-len(suffix)]
+            return text[:len(text) - len(suffix)]
         return text
 
     @classmethod
